@@ -230,7 +230,9 @@ func runC06(r *Report) {
 					return
 				}
 				bad := false
-				if _, isDefer := in.(*ssa.Defer); isDefer || g != f {
+				if g != f && releaseDisarmedOnSuccess(f, g, in) {
+					// a deferred release behind a captured flag that every success exit has switched off
+				} else if _, isDefer := in.(*ssa.Defer); isDefer || g != f {
 					bad = true // a deferred release also runs on the success exit
 				} else {
 					hits := WalkFrom(nil, in, func(x ssa.Instruction) int {
@@ -507,4 +509,52 @@ func claimWonAt(b *ssa.BasicBlock, claim ssa.CallInstruction) bool {
 		}
 	}
 	return n > 0
+}
+
+// releaseDisarmedOnSuccess: the release in closure g runs only while a captured bool has the value p,
+// and every success return of f is preceded on all paths by a store of !p into that variable
+// (`done := false; defer func() { if !done { release() } }(); ...; done = true; return nil`).
+func releaseDisarmedOnSuccess(f, g *ssa.Function, rel ssa.Instruction) bool {
+	for _, ft := range Facts(rel.Block()) {
+		ld, ok := ft.Cond.(*ssa.UnOp)
+		if !ok || ld.Op != token.MUL {
+			continue
+		}
+		fv, ok := ld.X.(*ssa.FreeVar)
+		if !ok {
+			continue
+		}
+		runsWhen := ft.Pol
+		var cell *ssa.Alloc
+		for _, bv := range freeVarBindings(fv) {
+			if al, ok := bv.(*ssa.Alloc); ok && al.Parent() == f {
+				cell = al
+			}
+		}
+		if cell == nil {
+			continue
+		}
+		disarm := func(in ssa.Instruction) bool {
+			st, ok := in.(*ssa.Store)
+			if !ok || st.Addr != ssa.Value(cell) {
+				return false
+			}
+			b, isC := ConstBool(st.Val)
+			return isC && b != runsWhen
+		}
+		n, all := 0, true
+		for _, ret := range Returns(f) {
+			if RetErrKind(ret) != "nil" {
+				continue
+			}
+			n++
+			if !MustPass(f, ret, disarm) {
+				all = false
+			}
+		}
+		if n > 0 && all {
+			return true
+		}
+	}
+	return false
 }
